@@ -120,8 +120,9 @@ fn main() {
         }
         assert!(o1[..] == o2[..], "output after set_stream_param differs from a directly created state");
         assert_eq!(c.get_stream_param(1), v1, "stream id after output");
-        assert_eq!(c.get_stream_param(0), v0.wrapping_add(if round % 2 == 0 { 4 } else { 1 }), "counter after output from {:#x}", v0);
-        out("params", fold(&o1) ^ c.get_stream_param(0) ^ c.get_stream_param(1).rotate_left(23));
+        // (how far the counter advanced is C14's statement, not C15's: only that both states advanced alike)
+        assert_eq!(c.get_stream_param(0), d.get_stream_param(0), "counter after output differs from the directly created state's");
+        out("params", fold(&o1) ^ c.get_stream_param(1).rotate_left(23));
     }
     // --- stream ciphers: seeks across the low counter word carry, mid-block, current_pos ---------------------------
     for _ in 0..(if on("cipher") { scale } else { 0 }) {
